@@ -53,6 +53,15 @@ func Normalize(zone string) (string, error) {
 	if len(invalid) > 0 {
 		return "", fmt.Errorf("acme: zone contains invalid dns characters")
 	}
+	// ToASCII decodes punycode labels, including ASCII-only ones ("xn--localhost-" becomes "localhost"):
+	// the converted name must pass the same checks as the input, and must be stable under conversion
+	again, err := idna.ToASCII(uni)
+	if err != nil || again != uni {
+		return "", fmt.Errorf("acme: zone is not in canonical form")
+	}
+	if !certmagic.SubjectQualifiesForPublicCert(uni) || certmagic.SubjectIsIP(uni) {
+		return "", fmt.Errorf("acme: invalid zone for acme certificate")
+	}
 	return uni, nil
 }
 
